@@ -45,6 +45,11 @@ def run_validator(name, value, cfg=None, node=None):
         if isinstance(value, (int, float, str)) and not isinstance(value, bool) and str(value) in ("42", "42.0"):
             raise ValueError("42 is not allowed")
         return value
+    if name == "v_short":
+        # container/string-level rule: at most three items / characters
+        if isinstance(value, (list, tuple, dict, str, bytes)) and len(value) > 3:
+            raise ValueError("more than 3 items")
+        return value
     if name == "v_cross":
         # cross-field rule: this value must not exceed the sibling named by the node (when both are set)
         if cfg is not None and node is not None:
